@@ -133,7 +133,7 @@ def abs := unMarks absU
 /-! ### GetAttr / Index / HasIndex / Length / HasElement -/
 
 def getAttrU (v : Value) (name : String) : Res Value :=
-  if v.ty == .dyn then .ok dynVal else
+  if v.ty.isDyn then .ok dynVal else
   match v.ty with
   | .object ns ts os =>
     match Ty.find name ns ts os with
@@ -160,11 +160,11 @@ def keyIndex (k : Value) : Res (Option Nat) :=
   | _ => .panic "key payload is not a number"
 
 def indexU (v k : Value) : Res Value :=
-  if v.ty == .dyn then .ok dynVal else
+  if v.ty.isDyn then .ok dynVal else
   match v.ty with
   | .list e =>
-    if k.ty == .dyn then .ok (unknown e)
-    else if k.ty != .number then .panic "list key must be number"
+    if k.ty.isDyn then .ok (unknown e)
+    else if !k.ty.isNumber then .panic "list key must be number"
     else if !k.isKnown then .ok (unknown e)
     else if !v.isKnown then .ok (unknown e)
     else do
@@ -175,16 +175,16 @@ def indexU (v k : Value) : Res Value :=
         | .seq vs => (match vs[i]? with | some p => .ok ⟨e, p⟩ | none => .panic "index out of range")
         | _ => .panic "payload is not a slice"
   | .map e =>
-    if k.ty == .dyn then .ok (unknown e)
-    else if k.ty != .string then .panic "map key must be string"
+    if k.ty.isDyn then .ok (unknown e)
+    else if !k.ty.isString then .panic "map key must be string"
     else if !k.isKnown then .ok (unknown e)
     else if !v.isKnown then .ok (unknown e)
     else match k.v, v.v with
       | .s key, .smap ks vs => .ok ⟨e, (lookupKey key ks vs).getD .null⟩
       | _, _ => .panic "payload mismatch"
   | .tuple es =>
-    if k.ty == .dyn then .ok dynVal
-    else if k.ty != .number then .panic "tuple key must be number"
+    if k.ty.isDyn then .ok dynVal
+    else if !k.ty.isNumber then .panic "tuple key must be number"
     else if !k.isKnown then .ok dynVal
     else do
       match ← keyIndex k with
@@ -201,11 +201,11 @@ def indexU (v k : Value) : Res Value :=
 def index := binMarks indexU
 
 def hasIndexU (v k : Value) : Res Value :=
-  if v.ty == .dyn then .ok unkBool else
+  if v.ty.isDyn then .ok unkBool else
   match v.ty with
   | .list _ =>
-    if k.ty == .dyn then .ok unkBool
-    else if k.ty != .number then .ok (boolVal false)
+    if k.ty.isDyn then .ok unkBool
+    else if !k.ty.isNumber then .ok (boolVal false)
     else if !k.isKnown then .ok unkBool
     else if !v.isKnown then .ok unkBool
     else do
@@ -216,16 +216,16 @@ def hasIndexU (v k : Value) : Res Value :=
         | .seq vs => pure (boolVal (i < vs.length))
         | _ => .panic "payload is not a slice"
   | .map _ =>
-    if k.ty == .dyn then .ok unkBool
-    else if k.ty != .string then .ok (boolVal false)
+    if k.ty.isDyn then .ok unkBool
+    else if !k.ty.isString then .ok (boolVal false)
     else if !k.isKnown then .ok unkBool
     else if !v.isKnown then .ok unkBool
     else match k.v, v.v with
       | .s key, .smap ks _ => .ok (boolVal (ks.contains key))
       | _, _ => .panic "payload mismatch"
   | .tuple es =>
-    if k.ty == .dyn then .ok unkBool
-    else if k.ty != .number then .ok (boolVal false)
+    if k.ty.isDyn then .ok unkBool
+    else if !k.ty.isNumber then .ok (boolVal false)
     else if !k.isKnown then .ok unkBool
     else do
       match ← keyIndex k with
@@ -260,7 +260,7 @@ def hasElementU (v elem : Value) (elemHash : Option Int) : Res Value :=
   if v.isNull then .panic "HasElement on null" else
   if !v.isKnown then .ok unkBool else
   let early : Bool := match v.ty with
-    | .set e => elem.ty != .dyn && e != .dyn && !(elem.ty.equals e)
+    | .set e => !elem.ty.isDyn && !e.isDyn && !(elem.ty.equals e)
     | _ => false
   if early then .ok (boolVal false) else
   match v.ty with
